@@ -146,6 +146,7 @@ pub fn configs(tier: Tier) -> Vec<Box<dyn Config>> {
     let q = tier == Tier::Quick;
     let mut v: Vec<Box<dyn Config>> = Vec::new();
     v.push(Box::new(super::rehash::RehashGrammar { tier }));
+    v.push(Box::new(super::widebattery::WideBattery { tier, part: super::widebattery::Part::Lookup }));
     v.push(long_chain(Plan::Zero, tier));
     v.push(long_chain(Plan::Max, tier));
     v.push(long_chain(Plan::Back, tier));
